@@ -113,27 +113,32 @@ class HashLocalAnomalyScore(BaseLocalAnomalyScore):
 
 
 class MultisetCost(BaseCost):
-    """A cost whose value is an integer function of the *multiset of rows* of the interval it is
-    evaluated on (sum of squares of the integer entries, plus a term depending on the count).  Used
-    to check that adapters evaluate the cost on exactly the rows the definition names (C06)."""
+    """A user-defined cost with an extra hyper-parameter (`weight`) whose value is an integer function
+    of the *multiset of rows* of the interval it is evaluated on.  Used to check that the adapters
+    evaluate the cost on exactly the rows the definition names and keep its hyper-parameters (C06)."""
 
-    def __init__(self, param=None):
+    def __init__(self, param=None, weight=1):
+        self.weight = weight
         super().__init__(param)
 
     def _fit(self, X, y=None):
         self._A = as_2d_array(X).astype(float)
         return self
 
+    @staticmethod
+    def value(seg, weight, param):
+        """the definition: seg = rows (k x p array); returns one value per column"""
+        k = len(seg)
+        v = weight * (3 * (seg ** 3).sum(axis=0) + 7 * (seg ** 2).sum(axis=0) + k * k)
+        if param is not None:
+            v = v + weight * (abs(param) * k + 5)
+        return v
+
     def _evaluate_optim_param(self, starts, ends):
-        out = []
-        for s, e in zip(starts, ends):
-            seg = self._A[s:e]
-            k = len(seg)
-            out.append(3 * (seg ** 3).sum(axis=0) + 7 * (seg ** 2).sum(axis=0) + k * k)
-        return np.array(out).reshape(len(starts), -1)
+        return np.array([self.value(self._A[s:e], self.weight, None) for s, e in zip(starts, ends)]).reshape(len(starts), -1)
 
     def _evaluate_fixed_param(self, starts, ends):
-        return self._evaluate_optim_param(starts, ends) + 1000.0
+        return np.array([self.value(self._A[s:e], self.weight, self.param) for s, e in zip(starts, ends)]).reshape(len(starts), -1)
 
 
 def find_scale(K: float, d: float):
